@@ -22,6 +22,14 @@ for d in sorted(glob.glob(os.path.join(VERIF, "seeded", pid + "-*"))):
         pass
 
 HINTS = {
+    "r4": """Aim for changes of the following kinds (pick two DIFFERENT kinds, and prefer sites that none of the earlier changes listed below touched):
+  (g) boundary conditions that are rarely hit: zero-length / exactly-full / first or last element, shard or worker count 1 versus > 1, max_idle_epochs = 0, history length 1, batch with one scene, a scene seen for the first time, empty detection list followed by a full one;
+  (h) lifetime effects: behaviour after clear_wasted, after tracks were handed out by wasted(), after a scene was idle for a long time, after very many epochs, after a tracker was dropped and another created, usize / u64 / i64 conversions of ids, epochs or custom ids (negative, very large);
+  (i) an API variant that shares code with the commonly used one but takes a different path: predict vs predict_with_scene (scene 0 vs other scenes), idle_tracks vs idle_tracks_with_scene, the batch API vs the simple API, into_iter() vs all(), owned vs foreign queries, builder vs direct constructor, `Option` arguments given as None;
+  (j) the interplay of TWO configuration options or two inputs that are each fine alone (e.g. a constraint table together with max_idle, min votes together with max observations, score threshold together with missing scores, rotated and unrotated boxes in one call);
+  (k) data dependent corners: custom_object_id None / negative, confidence at its extremes, angle None versus Some(0.0), extreme aspect ratios, features of different lengths in one gallery, quality None;
+  (l) an invariant maintained in two places of which only one is updated (a cached count, a duplicated field, an index kept next to a map).
+Avoid changes that any ordinary use (a tracker fed a few frames of well separated objects, or a single call of the function on a typical input) exposes at once.""",
     "r3": """Aim for changes of the following kinds (pick two DIFFERENT kinds):
   (a) two cooperating edits in different functions/files that each look harmless alone (e.g. a helper whose contract is subtly changed + a caller that relied on the old contract on one path only);
   (b) state that goes wrong only after a long or oddly shaped history (counters wrapping past a size, a cache that is invalidated on all paths but one, something that only happens after tracks were expired AND collected AND ids/slots reused, after a skip, after clear_wasted, after many merges);
